@@ -41,6 +41,17 @@ def write_warm_stamp():
     os.makedirs(cache_root(), exist_ok=True); json.dump(source_stamp(), open(os.path.join(cache_root(), "warm_stamp.json"), "w"))
 
 
+def prune_cache(keep=3):
+    """disk hygiene: every tree that differs in util.py / nanops.py gets its own cache directory (16 ranks of compiled kernels, ~1 GB); keep the current one and the most
+    recently used few, remove the rest"""
+    import shutil
+    root = os.path.join(ROOT, ".cache", "numba"); cur = cache_key()
+    try: ds = [d for d in os.listdir(root) if os.path.isdir(os.path.join(root, d)) and len(d) == 10 and all(ch in "0123456789abcdef" for ch in d) and d != cur]
+    except OSError: return
+    ds.sort(key=lambda d: os.path.getmtime(os.path.join(root, d)), reverse=True)
+    for d in ds[keep:]: shutil.rmtree(os.path.join(root, d), ignore_errors=True)
+
+
 def cache_is_cold():
     """True when (some of) the kernels of the tree under test have to be compiled first: no cache at all, or the tree is not the one the caches were warmed for (another
     location, or a source file changed - numba then recompiles every kernel of that file in every worker)"""
